@@ -267,6 +267,14 @@ def _toml_paths(text):
     return out
 
 
+def _get_key(e):
+    """"k" for `X.get("k")` / `X.get("k", default)` -- the same table entry as X["k"]"""
+    if isinstance(e, ast.Call) and isinstance(e.func, ast.Attribute) and e.func.attr == "get" and 1 <= len(e.args) <= 2 and not e.keywords \
+            and isinstance(e.args[0], ast.Constant) and isinstance(e.args[0].value, str):
+        return e.args[0].value
+    return None
+
+
 def _alias_paths(fn, root_names, derive=False):
     """Follow `x = y["k"]` chains.  -> (reads {path: line}, writes {path: line}, var->path)
     derive=True: a fresh local computed from locals of exactly one configuration path (a converted / copied table under a new
@@ -284,6 +292,11 @@ def _alias_paths(fn, root_names, derive=False):
             b = path_of(e.value)
             if b is not None:
                 return f"{b}.{e.slice.value}" if b else e.slice.value
+        k = _get_key(e)
+        if k is not None:
+            b = path_of(e.func.value)
+            if b is not None:
+                return f"{b}.{k}" if b else k
         return None
     for n in stmts:
         t = n.targets[0]
@@ -308,7 +321,7 @@ def _alias_paths(fn, root_names, derive=False):
                     if len(src) == 1:
                         var[t.id] = next(iter(src))
                 for sub in ast.walk(n.value):
-                    if isinstance(sub, ast.Subscript):
+                    if isinstance(sub, ast.Subscript) or _get_key(sub) is not None:
                         q = path_of(sub)
                         if q is not None:
                             reads[q] = n.lineno
@@ -376,6 +389,10 @@ def _r12(ctx, pkg):
             base = paths_of(e.value)
             if base:
                 return {f"{b}.{e.slice.value}" if b else e.slice.value for b in base}
+        if _get_key(e) is not None:
+            base = paths_of(e.func.value)
+            if base:
+                return {f"{b}.{_get_key(e)}" if b else _get_key(e) for b in base} | {p_ for a_ in e.args[1:] for p_ in paths_of(a_)}
         if isinstance(e, ast.Name):
             return set(taint.get(e.id, ()))
         for ch in ast.iter_child_nodes(e):
@@ -602,6 +619,11 @@ def _r9(ctx, pkg):
             b = path_of(e.value)
             if b is not None:
                 return f"{b}.{e.slice.value}" if b else e.slice.value
+        k = _get_key(e)
+        if k is not None:
+            b = path_of(e.func.value)
+            if b is not None:
+                return f"{b}.{k}" if b else k
         return None
     for st in [x for x in _in_order(cfn) if isinstance(x, ast.Assign)]:
         t = st.targets[0]
@@ -674,10 +696,20 @@ KW_OPTION = {"description": "description", "load": "loading", "element": "elemen
 
 def _kwargs_dict(fn, callee, kw):
     """keys of the dict display assigned to the local that `callee(..., kw=<local>)` receives"""
-    name = next((k.value.id for c in ast.walk(fn) if isinstance(c, ast.Call) and ast.unparse(c.func) == callee for k in c.keywords if k.arg == kw and isinstance(k.value, ast.Name)), None)
+    def keys_of(v):
+        if isinstance(v, ast.Dict):
+            return {k.value for k in v.keys if isinstance(k, ast.Constant)}
+        if isinstance(v, ast.Call) and isinstance(v.func, ast.Name) and v.func.id == "dict" and not v.args:
+            return {k.arg for k in v.keywords if k.arg}
+        return None
+    vals = [k.value for c in ast.walk(fn) if isinstance(c, ast.Call) and ast.unparse(c.func) == callee for k in c.keywords if k.arg == kw]
+    for v in vals:
+        if keys_of(v) is not None:
+            return keys_of(v)             # the display written in the call itself
+    name = next((v.id for v in vals if isinstance(v, ast.Name)), None)
     for n in ast.walk(fn):
-        if isinstance(n, ast.Assign) and isinstance(n.targets[0], ast.Name) and n.targets[0].id == name and isinstance(n.value, ast.Dict):
-            return {k.value for k in n.value.keys if isinstance(k, ast.Constant)}
+        if isinstance(n, ast.Assign) and isinstance(n.targets[0], ast.Name) and n.targets[0].id == name and keys_of(n.value) is not None:
+            return keys_of(n.value)
     return set()
 
 
@@ -702,7 +734,7 @@ def _r2(ctx, pkg):
             if k.arg == "species_kwargs":
                 continue        # a dictionary of three option values: its keys are decided just below
             exp = KW_OPTION.get(k.arg)
-            got = org.get(k.value.id) if isinstance(k.value, ast.Name) else None
+            got = org.get(k.value.id) if isinstance(k.value, ast.Name) else _origin_of(k.value, org)
             if exp is None:
                 ctx.unrec("R2", f"InitCommand:{k.arg}=", (INIT, c.lineno), f"no option is on record for the setting `{k.arg}`")
             else:
@@ -810,10 +842,23 @@ def _r4_r6_r7(ctx, pkg):
                                   "the option value is cut at every ':' and the pieces are read by index [0], [1]: an expression containing ':' (a C conditional) is silently truncated",
                                   expected="split(':', 1)", found=ast.unparse(c))
     # ode-modifier: tuple unpacking raises on a surplus piece (not silent)
+    def colon_cut(v):
+        """('split', maxsplit?) / ('partition',) for X.split(':'[, n]) / X.partition(':'), else None"""
+        if isinstance(v, ast.Call) and isinstance(v.func, ast.Attribute) and v.args and isinstance(v.args[0], ast.Constant) and v.args[0].value == ":":
+            if v.func.attr in ("split", "rsplit"):
+                return ("split", len(v.args) > 1 or any(k.arg == "maxsplit" for k in v.keywords))
+            if v.func.attr in ("partition", "rpartition"):
+                return ("partition",)
+        return None
     unp = [n for lp in _option_loops(ih, org, "ode-modifier") for n in ast.walk(lp)
-           if isinstance(n, ast.Assign) and isinstance(n.targets[0], ast.Tuple) and re.fullmatch(r"\w+\.split\(':'\)", ast.unparse(n.value))]
-    ctx.check(len(unp) == 1 and len(unp[0].targets[0].elts) == 2, "R6", "--ode-modifier: key/value unpacking", (INIT, unp[0].lineno if unp else ih.lineno),
-              "`key, value = om.split(':')` raises on a surplus ':' instead of dropping text")
+           if isinstance(n, ast.Assign) and isinstance(n.targets[0], ast.Tuple) and colon_cut(n.value) is not None]
+    if not unp:
+        ctx.unrec("R6", "--ode-modifier: key/value unpacking", (INIT, ih.lineno), "no `key, value = <piece>.split(':')` (or partition) found in the loop over the --ode-modifier occurrences")
+    else:
+        # split(':') into two names raises on a surplus ':'; split(':', 1) and partition(':') keep the tail -- none drops text silently
+        okk = all(len(n.targets[0].elts) == (3 if colon_cut(n.value)[0] == "partition" else 2) and not any(isinstance(e, ast.Starred) for e in n.targets[0].elts) for n in unp)
+        ctx.check(okk, "R6", "--ode-modifier: key/value unpacking", (INIT, unp[0].lineno),
+                  "`key, value = om.split(':')` raises on a surplus ':' instead of dropping text", found="; ".join(ast.unparse(n)[:60] for n in unp))
     ctx.floor("R6", "free-text splits", n6, 1, (INIT, ih.lineno))
     # R7 fresh lists per ODE-modifier entry
     loops = _option_loops(ih, org, "ode-modifier")
@@ -829,20 +874,51 @@ def _r4_r6_r7(ctx, pkg):
             if isinstance(n, ast.Call) and isinstance(n.func, ast.Attribute) and n.func.attr == "setdefault" and ast.unparse(n.func.value) in D:
                 creates.append(n.args[1] if len(n.args) > 1 else n)
         found = "; ".join(ast.unparse(c)[:70] for c in creates)
-        ok = bool(creates) and all(isinstance(c, ast.Dict) and all(isinstance(v, ast.List) for v in c.values) for c in creates)
-    ctx.check(ok, "R7", "--ode-modifier: fresh lists per species", (INIT, loops[0].lineno if loops else ih.lineno),
-              "a new entry is a dict display with its own list displays" if ok else
-              "a new ODE-modifier entry is not built from fresh list displays (shared template / shallow copy): the factor lists of different species alias each other",
-              expected="ode_modifier[key] = {'factors': [fact], 'reactants': [rdep]}", found=found)
+
+        def fresh_list(v):
+            return isinstance(v, (ast.List, ast.ListComp)) or (isinstance(v, ast.Call) and isinstance(v.func, ast.Name) and v.func.id == "list")
+
+        def fresh(c):
+            """True: a new dict with lists of its own; False: an object that other entries share; None: not decided here"""
+            if isinstance(c, ast.Dict):
+                return all(fresh_list(v) for v in c.values) if all(fresh_list(v) or isinstance(v, (ast.Name, ast.Attribute)) for v in c.values) else None
+            if isinstance(c, ast.Call) and isinstance(c.func, ast.Name) and c.func.id == "dict" and not c.args and c.keywords:
+                return all(fresh_list(k.value) for k in c.keywords) if all(fresh_list(k.value) or isinstance(k.value, (ast.Name, ast.Attribute)) for k in c.keywords) else None
+            if isinstance(c, ast.Call) and ast.unparse(c.func) in ("copy.deepcopy", "deepcopy") and len(c.args) == 1:
+                return True
+            if isinstance(c, (ast.Name, ast.Attribute)):
+                return False              # the same object for every species
+            if isinstance(c, ast.Call) and ((isinstance(c.func, ast.Attribute) and c.func.attr == "copy" and not c.args) or ast.unparse(c.func) in ("dict", "copy.copy")):
+                return False              # a shallow copy: the lists inside are shared
+            return None
+        verdicts = [fresh(c) for c in creates]
+        ok = bool(creates) and all(v is True for v in verdicts)
+        if creates and not ok and not any(v is False for v in verdicts):
+            ctx.unrec("R7", "--ode-modifier: fresh lists per species", (INIT, lp.lineno), f"cannot tell whether a new ODE-modifier entry owns its lists: {found[:120]}")
+            ok = None
+    if ok is not None:
+        ctx.check(ok, "R7", "--ode-modifier: fresh lists per species", (INIT, loops[0].lineno if loops else ih.lineno),
+                  "a new entry is a dict display with its own list displays" if ok else
+                  "a new ODE-modifier entry is not built from fresh list displays (shared template / shallow copy): the factor lists of different species alias each other",
+                  expected="ode_modifier[key] = {'factors': [fact], 'reactants': [rdep]}", found=found)
 
 
 def _r5(ctx, pkg):
     ih = pkg.method("InitCommand", "handle")
     table = None
-    for n in ast.walk(ih):
-        if isinstance(n, ast.Assign) and isinstance(n.targets[0], ast.Name) and isinstance(n.value, ast.Dict) and \
-                {"cvode", "odeint"} & {k.value for k in n.value.keys if isinstance(k, ast.Constant)}:
-            table = ast.literal_eval(n.value)
+    # by value (sa.consteval): a dict bound in handle() or at class level that maps solver names to {device: [methods]}
+    from ..consteval import fold, NotConstant, class_attr_resolver
+    attr = class_attr_resolver(pkg, "InitCommand")
+    cands = [n.value for n in ast.walk(ih) if isinstance(n, ast.Assign) and isinstance(n.targets[0], ast.Name)] + list(pkg.cls("InitCommand").attrs.values())
+    for v in cands:
+        if not isinstance(v, (ast.Dict, ast.DictComp, ast.Call)):
+            continue
+        try:
+            val = fold(v, {}, attr)
+        except NotConstant:
+            continue
+        if isinstance(val, dict) and {"cvode", "odeint"} & set(val) and all(isinstance(d, dict) and all(isinstance(ms, (list, tuple)) for ms in d.values()) for d in val.values()):
+            table = val
     if table is None:
         ctx.missing("R5", "allowed_method", (INIT, ih.lineno), "solver/method table not found")
         return
@@ -861,19 +937,79 @@ def _r5(ctx, pkg):
     for solver, dev, m in sorted(methods):
         if solver == "cvode":
             ctx.check(m in branches, "R5", f"cvode method {m}", (INIT, ih.lineno), f"the cvode templates have a `general.method == \"{m}\"` branch", found=str(sorted(branches)))
+    _r5_example(ctx, pkg, table, {m for _, _, m in methods})
+
+
+def _fstr_option_locals(fn):
+    """{option: expression} interpolated right after `--<option>=` in an f-string of the function (`f"--solver={solver}"`)"""
+    out = {}
+    for js in ast.walk(fn):
+        if isinstance(js, ast.JoinedStr):
+            for a, b in zip(js.values, js.values[1:]):
+                if isinstance(a, ast.Constant) and isinstance(a.value, str) and isinstance(b, ast.FormattedValue):
+                    m = re.search(r"--([a-z][a-z\-]+)='?$", a.value)
+                    if m:
+                        out.setdefault(m.group(1), b.value)
+    return out
+
+
+def _r5_example(ctx, pkg, table, allm):
+    """The cases the example command offers, and the (solver, device, method) triple it composes for each, by VALUE (sa.consteval):
+    whatever the case list is spelled as (a literal list, a comprehension over a class-level table, ...) and however solver / device /
+    method are derived from the chosen case, every case must end in a method of init.py's table and yield a combination the table allows."""
+    from ..consteval import fold, run, NotConstant, class_attr_resolver
     eh = pkg.method("ExampleCommand", "handle")
+    attr = class_attr_resolver(pkg, "ExampleCommand")
+    # by role: the list handed to self.choice(<question>, <list>, ..) -- the same local that `--select` indexes
+    lst = next((c.args[1] for c in ast.walk(eh) if isinstance(c, ast.Call) and isinstance(c.func, ast.Attribute) and c.func.attr == "choice" and len(c.args) >= 2), None)
+    casevar = next((n.targets[0].id for n in ast.walk(eh) if isinstance(n, ast.Assign) and isinstance(n.targets[0], ast.Name) and isinstance(n.value, ast.Call)
+                    and isinstance(n.value.func, ast.Attribute) and n.value.func.attr == "choice"), None)
     cases = None
-    for n in ast.walk(eh):
-        if isinstance(n, ast.Assign) and isinstance(n.targets[0], ast.Name) and isinstance(n.value, (ast.List, ast.Tuple)) and n.value.elts and \
-                all(isinstance(e, ast.Constant) and isinstance(e.value, str) and "/" in e.value for e in n.value.elts):
-            cases = ast.literal_eval(n.value)
-    allm = {m for _, _, m in methods}
-    for c in sorted({x.split("/")[-1] for x in (cases or [])}):
+    if lst is not None:
+        try:
+            env0 = run(eh.body, {}, attr)
+            cases = fold(lst, env0, attr)
+        except NotConstant as ex:
+            ctx.unrec("R5", "example cases", (EXAMPLE, eh.lineno), f"the list of example cases is not a constant this rule can compute: {ex}")
+            return
+    if not isinstance(cases, (list, tuple)) or not all(isinstance(c, str) and "/" in c for c in cases) or casevar is None:
+        ctx.missing("R5", "example cases", (EXAMPLE, eh.lineno), "the list of `example/method` cases offered by self.choice(..) was not found")
+        return
+    for c in sorted({x.split("/")[-1] for x in cases}):
         ctx.check(c in allm, "R5", f"example case suffix {c}", (EXAMPLE, eh.lineno), f"`{c}` is a method of init.py's table")
-    ctx.floor("R5", "example cases", len(cases or []), 20)
-    src = ast.unparse(eh)
-    ctx.check(re.search(r"\w+ = 'odeint' if 'rosenbrock4' in \w+ else 'cvode'", src) is not None and re.search(r"\w+ = 'gpu' if 'cusparse' in \w+ else 'cpu'", src) is not None, "R5", "example solver/device derivation", (EXAMPLE, eh.lineno),
-              "solver and device are derived from the method suffix consistently with the table")
+    ctx.floor("R5", "example cases", len(cases), 20)
+    # by role: the locals whose reconstructed value (sa.valueflow) is what the composed command line carries after `--solver=`,
+    # `--device=`, `--method=` -- however that line is put together; an expression interpolated directly in an f-string is taken as it is
+    from ..valueflow import simp as _simp
+    efl = _example_flow(pkg)
+    wv = _writer_values(efl)
+    opts = dict(_fstr_option_locals(eh))
+    for k in ("solver", "device", "method"):
+        if k in wv:
+            nm = next((nm for nm, lst in efl.assigns.items() if any(_simp(a_[0]) == wv[k] for a_ in lst)), None)
+            if nm is not None:
+                opts[k] = ast.Name(id=nm, ctx=ast.Load())
+    if not all(k in opts for k in ("solver", "device", "method")):
+        ctx.unrec("R5", "example solver/device derivation", (EXAMPLE, eh.lineno), "the --solver= / --device= / --method= pieces of the composed command line were not found")
+        return
+    # the statements after the case was chosen, at the top level of handle()
+    start = next((i for i, st in enumerate(eh.body) if any(isinstance(x, ast.Name) and x.id == casevar and isinstance(x.ctx, ast.Store) for x in ast.walk(st))), 0)
+    bad, unknown = [], []
+    for c in cases:
+        env = run(eh.body[start + 1:], {casevar: c}, attr)
+        try:
+            sv, dv, mv = (fold(opts[k], env, attr) for k in ("solver", "device", "method"))
+        except NotConstant as ex:
+            unknown.append(f"{c}: {ex}")
+            continue
+        if mv not in (table.get(sv, {}) or {}).get(dv, []):
+            bad.append(f"{c} -> --solver={sv} --device={dv} --method={mv}")
+    if unknown:
+        ctx.unrec("R5", "example solver/device derivation", (EXAMPLE, eh.lineno), f"cannot compute the composed solver/device/method for {unknown[0]}")
+    else:
+        ctx.check(not bad, "R5", "example solver/device derivation", (EXAMPLE, eh.lineno),
+                  "solver and device are derived from the method suffix consistently with the table: every case composes a (solver, device, method) combination init.py allows",
+                  expected="a combination of init.py's solver/method table for every case", found="; ".join(bad[:4]))
 
 
 def _r8(ctx, pkg):
@@ -950,6 +1086,10 @@ MUTANTS = [
     {"name": "rate-modifier-loop-lossy-split", "file": INIT, "old": "        rate_modifier = self.option(\"rate-modifier\")\n        rate_modifier = [rm.strip() for l in rate_modifier for rm in l.split(\",\")]\n        rate_modifier = [rm.split(\":\", 1) for rm in rate_modifier]\n        rate_modifier = {rm[0].strip(): rm[1].strip() for rm in rate_modifier}\n", "new": "        rate_modifier = {}\n        for text in self.option(\"rate-modifier\"):\n            for piece in text.split(\",\"):\n                pair = piece.strip().split(\":\")\n                rate_modifier[pair[0].strip()] = pair[1].strip()\n", "rules": ["R6"]},
     {"name": "shielding-format-separator", "file": EXAMPLE, "old": 'shieldingstr = ",".join(f"{key}: {val}" for key, val in shielding.items())', "new": 'shieldingstr = ",".join("{}={}".format(key, val) for key, val in shielding.items())', "rules": ["R4"]},
     {"name": "network-not-passed-cooling", "file": RENDER, "old": "            cooling=cooling,\n", "new": "            cooling=heating,\n", "rules": ["R8"]},
+    # hardening round 5
+    {"name": "example-device-from-substring-sparse", "file": EXAMPLE, "old": '"gpu" if "cusparse" in case', "new": '"gpu" if "sparse" in case', "rules": ["R5"]},
+    {"name": "example-case-table-unknown-method", "edits": [{"file": EXAMPLE, "old": '    def __init__(self):\n        super(ExampleCommand, self).__init__()\n', "new": '    _ALL = ("dense", "sparse", "cusparse", "rosenbrock4")\n    _CASES = (\n        ("empty", _ALL),\n        ("minimal", _ALL),\n        ("primordial", _ALL),\n        ("deuterium", _ALL),\n        ("cloud", ("dense", "sparse", "rosenbrock4")),\n        ("ism", ("dense", "sparse", "cusparse", "bdf")),\n    )\n\n    def __init__(self):\n        super(ExampleCommand, self).__init__()\n'}, {"file": EXAMPLE, "old": '        networklist = [\n            "empty/dense",\n            "empty/sparse",\n            "empty/cusparse",\n            "empty/rosenbrock4",\n            "minimal/dense",\n            "minimal/sparse",\n            "minimal/cusparse",\n            "minimal/rosenbrock4",\n            "primordial/dense",\n            "primordial/sparse",\n            "primordial/cusparse",\n            "primordial/rosenbrock4",\n            "deuterium/dense",\n            "deuterium/sparse",\n            "deuterium/cusparse",\n            "deuterium/rosenbrock4",\n            "cloud/dense",\n            "cloud/sparse",\n            "cloud/rosenbrock4",\n            "ism/dense",\n            "ism/sparse",\n            "ism/cusparse",\n        ]\n', "new": '        networklist = [\n            "/".join((ex_, how_))\n            for ex_, hows_ in self._CASES\n            for how_ in hows_\n        ]\n'}], "rules": ["R5"]},
+    {"name": "writer-update-forgets-method", "file": CONF, "old": '        odesolver = content["ODEsolver"]\n        odesolver["solver"] = self._solver\n        odesolver["device"] = self._device\n        odesolver["method"] = self._method\n', "new": '        content["ODEsolver"].update({"solver": self._solver, "device": self._device})\n', "rules": ["R1"]},
 ]
 BENIGN = [
     # hardening round 4
@@ -960,4 +1100,13 @@ BENIGN = [
     {"name": "shielding-str-format", "file": EXAMPLE, "old": 'shieldingstr = ",".join(f"{key}: {val}" for key, val in shielding.items())', "new": 'shieldingstr = ",".join("{}: {}".format(key, val) for key, val in shielding.items())'},
     {"name": "option-by-concatenation", "file": EXAMPLE, "old": "f\"--shielding='{shieldingstr}'\",", "new": "\"--shielding=\" + \"'\" + format(shieldingstr) + \"'\","},
     {"name": "kwargs-reordered", "file": INIT, "old": "            solver=solver,\n            device=device,\n            method=method,\n        )", "new": "            method=method,\n            device=device,\n            solver=solver,\n        )"},
+    # hardening round 5
+    {"name": "example-cases-from-class-table", "edits": [{"file": EXAMPLE, "old": '    def __init__(self):\n        super(ExampleCommand, self).__init__()\n', "new": '    _ALL = ("dense", "sparse", "cusparse", "rosenbrock4")\n    _CASES = (\n        ("empty", _ALL),\n        ("minimal", _ALL),\n        ("primordial", _ALL),\n        ("deuterium", _ALL),\n        ("cloud", ("dense", "sparse", "rosenbrock4")),\n        ("ism", ("dense", "sparse", "cusparse")),\n    )\n\n    def __init__(self):\n        super(ExampleCommand, self).__init__()\n'}, {"file": EXAMPLE, "old": '        networklist = [\n            "empty/dense",\n            "empty/sparse",\n            "empty/cusparse",\n            "empty/rosenbrock4",\n            "minimal/dense",\n            "minimal/sparse",\n            "minimal/cusparse",\n            "minimal/rosenbrock4",\n            "primordial/dense",\n            "primordial/sparse",\n            "primordial/cusparse",\n            "primordial/rosenbrock4",\n            "deuterium/dense",\n            "deuterium/sparse",\n            "deuterium/cusparse",\n            "deuterium/rosenbrock4",\n            "cloud/dense",\n            "cloud/sparse",\n            "cloud/rosenbrock4",\n            "ism/dense",\n            "ism/sparse",\n            "ism/cusparse",\n        ]\n', "new": '        networklist = [\n            "/".join((ex_, how_))\n            for ex_, hows_ in self._CASES\n            for how_ in hows_\n        ]\n'}]},
+    {"name": "writer-section-update", "file": CONF, "old": '        odesolver = content["ODEsolver"]\n        odesolver["solver"] = self._solver\n        odesolver["device"] = self._device\n        odesolver["method"] = self._method\n', "new": '        content["ODEsolver"].update({"solver": self._solver, "device": self._device, "method": self._method})\n'},
+    {"name": "writer-rate-modifier-dict-zip", "file": CONF, "old": '        chemistry["rate_modifier"] = {\n            str(key): value for key, value in self._ratemodifier.items()\n        }\n', "new": '        chemistry["rate_modifier"] = dict(zip(map(str, self._ratemodifier.keys()), self._ratemodifier.values()))\n'},
+    {"name": "writer-symbol-lookup-alias", "edits": [
+        {"file": CONF, "old": '        chemistry["symbol"] = {\n', "new": '        lookup = self._species_kwargs.get\n        chemistry["symbol"] = {\n'},
+        {"file": CONF, "old": 'self._species_kwargs.get("grain_symbol", "GRAIN")', "new": 'lookup("grain_symbol", "GRAIN")'},
+        {"file": CONF, "old": 'self._species_kwargs.get("surface_prefix", "#")', "new": 'lookup("surface_prefix", "#")'},
+        {"file": CONF, "old": 'self._species_kwargs.get("bulk_prefix", "@")', "new": 'lookup("bulk_prefix", "@")'}]},
 ]
